@@ -6,12 +6,12 @@ from vlib import core, jsonmodel as jm
 LEVEL = "exploration"
 TECHNIQUE = ("TLC enumerates Go type trees (primitive kinds, slice, array, map with key kind, pointer, interface, "
              "custom-JSON types with both/one half/pointer receivers, structs with exported / unexported / json:\"-\" / "
-             "omitempty / embedded / duplicate-name fields) to nesting depth 3 (quick) / 4 (thorough, bounded breadth), "
+             "omitempty / embedded / duplicate-name fields) to nesting depth 3 (quick) / 4 (thorough, bounded breadth; the real binding takes all types of depth <= 2 and a seeded 8 000 of the deeper ones), "
              "checks on every type the lemmas relating a semantic model of an encoding/json round trip over boundary value "
              "classes (Lossless), a syntactic list of data-losing features (Reasons) and the statement's acceptance rule "
              "(Accepts => lossless for well-formed values, tight, residual only value-level), and prints each struct type "
              "with the model's verdict. Each type is generated as Go source, compiled against the repository and given to "
-             "the real modeling.ValidateState/ValidateSpec; boundary values of it (zero, empty-non-nil, max/min, unicode, "
+             "the real modeling.ValidateState/ValidateSpec; boundary values of it (zero, empty-non-nil at every nesting level, max/min, unicode, "
              "non-UTF-8, NaN/Inf, nested) are round-tripped through the checkpoint encoding; a sample also goes through "
              "the real generic Builder.Build and Component.SaveCheckpoint/LoadCheckpoint.")
 LEVEL_TEXT = "bounded exploration of the type grammar and of boundary value classes; real validator and real round trip per type"
@@ -51,11 +51,18 @@ def pick_probes(ck, cases, cap):
     rest = [k for k in keys if len(k[3]) > 1]
     ck.rng.shuffle(rest)
     chosen = []
+    # several accepted-and-lossless types (the real component must round-trip every class of them), spread over the group
+    for k in keys:
+        if k[0] and k[1]:
+            g = sorted(groups[k], key=lambda c: c["id"])
+            chosen += [g[i]["id"] for i in range(0, len(g), max(1, len(g) // 6))][:6]
     for k in must + rest:
         if len(chosen) >= cap:
             break
         g = groups[k]
-        chosen.append(g[0]["id"] if k in must else ck.rng.choice(g[:8])["id"])
+        pid = g[0]["id"] if k in must else ck.rng.choice(g[:8])["id"]
+        if pid not in chosen:
+            chosen.append(pid)
     return chosen
 
 
@@ -73,10 +80,18 @@ def run(ck):
     cases = jm.assign_ids(r.tagged["CASE"])
     if len(cases) < 1000:
         raise core.Broken("JsonModel emitted only %d types" % len(cases))
+    ck.cov["types_in_model"] = len(cases)
+    if not quick:
+        # TLC checked the lemmas on every type; the real binding takes every type of nesting depth <= 2 and a seeded
+        # sample of the deeper ones (compiling ~30 000 types does not fit the budget)
+        deep = [c for c in cases if c["d"] >= 3]
+        keep = set(c["id"] for c in ck.rng.sample(deep, min(len(deep), 8000)))
+        cases = [c for c in cases if c["d"] < 3 or c["id"] in keep]
+        ck.cov["deeper_levels_sampled"] = "%d of %d" % (len(keep), len(deep))
     by_id = {c["id"]: c for c in cases}
-    probe_ids = pick_probes(ck, cases, 24 if quick else 96)
+    probe_ids = pick_probes(ck, cases, 20 if quick else 48)
     d, npk = jm.write_module(cases, probe_ids)
-    binary, bt = jm.build(d, timeout=300 if quick else 900)
+    binary, bt = jm.build(d, timeout=600 if quick else 900)
     ck.note("TLC: %d types (%d states, %.0fs); compiled %d packages in %.0fs; %d probes through the real builder/component" % (
         len(cases), r.distinct, r.wall, npk, bt, len(probe_ids)))
     out = core.harness(binary, "types", {}, timeout=300)
